@@ -195,11 +195,11 @@ impl C03 {
 impl Monitor for C03 {
     fn engines(&self, tier: Tier) -> Vec<(&'static str, u64)> {
         vec![
-            ("clean", tier.pick(60_000, 600_000)),
-            ("hostile", tier.pick(500_000, 6_000_000)),
-            ("sweep", tier.pick(6_000, 60_000)),
+            ("clean", tier.pick(600000, 60000000)),
+            ("hostile", tier.pick(5000000, 600000000)),
+            ("sweep", tier.pick(60000, 6000000)),
             ("ethertype", tier.pick(65_536, 65_536 * 4)),
-            ("iplevel", tier.pick(150_000, 1_500_000)),
+            ("iplevel", tier.pick(1500000, 150000000)),
         ]
     }
 
